@@ -257,7 +257,7 @@ func (w *World) CheckOutcome() {
 					}
 					want.Set("x-rpc", v.spec.ID)
 					if v.spec.GrpcTimeout != "" {
-						want.Set("grpc-timeout", v.spec.GrpcTimeout)
+						want.Set("grpc-timeout", strings.Split(v.spec.GrpcTimeout, "\x1f")...)
 					}
 				}
 				for k, val := range v.spec.Creds {
